@@ -604,7 +604,8 @@ func (grp *Group) validateCPUResourceFit(allQuotas map[string]*groupQuotaAllocat
 					return fmt.Errorf("sub-group cpu limit of %d%% is too large to fit inside group %q with allowed CPU set %v",
 						cpuRequested, parent.Name, limits.CPUSetLimit)
 				}
-				break
+				// do not stop here, a group further up may still have a cpu
+				// quota that we must fit into
 			}
 		}
 		parent = parent.parentGroup
